@@ -212,8 +212,13 @@ def space_check(n, d, lb, ub, na, mode, raw, r, int_pos=False):
     for ag in s.agents:
         if ag.position.shape != (n, d) or not in_unit(ag.position):
             msg = 'a freshly initialised agent is outside the unit box: %r' % ag.position.tolist()
-    for ag, p in zip(s.agents, raw):
-        ag.position = np.array(p, dtype=int if int_pos else float)     # int: a user seeding agents at integer corners
+    for k_, (ag, p) in enumerate(zip(s.agents, raw)):
+        arr = np.array(p, dtype=int if int_pos else float)              # int: a user seeding agents at integer corners
+        if k_ % 2 == 1 and arr.ndim == 2:
+            big = np.zeros((2 * arr.shape[0], 2 * arr.shape[1]), dtype=arr.dtype)      # a strided view of a larger design matrix
+            big[::2, ::2] = arr
+            arr = big[::2, ::2]
+        ag.position = arr
     try:
         s.check_limits()
     except Exception as ex:  # noqa: BLE001
